@@ -5,7 +5,9 @@
 (* several runs in one output directory).  One record per run:             *)
 (*   [first  TRUE for the first run of a history (empty directory),        *)
 (*    brs, bs, ed  branches, Split bufsize, <<edges1, edgesy>>,            *)
-(*    data, tpl    events and template version of this run,               *)
+(*    src, tpl     events the reader supplies and template version,        *)
+(*    usecache     a Cache stands between the reader and the Split,        *)
+(*    pulled       events actually read from the reader in this run,       *)
 (*    files        the directory after the run, decoded: [key, c]          *)
 (*    wrote, launched, out   files written, converters launched, results]  *)
 (* The state carried between records is the directory.  A run is accepted  *)
@@ -17,10 +19,10 @@
 EXTENDS AnalysisSem, TLC, Json, IOUtils
 
 Trace == JsonDeserialize(IOEnv.TRACE_FILE)
-VARIABLES i, dir
-vars == <<i, dir>>
+VARIABLES i, dir, stored
+vars == <<i, dir, stored>>
 
-Init == i = 1 /\ dir = <<>>
+Init == i = 1 /\ dir = <<>> /\ stored = <<>>
 
 AsFun(fl) == [k \in {fl[j].key : j \in 1..Len(fl)} |-> File(fl[CHOOSE j \in 1..Len(fl) : fl[j].key = k].c)]
 AsSet(sq) == {sq[j] : j \in 1..Len(sq)}
@@ -28,15 +30,20 @@ Distinct(l) == \A a \in 1..Len(l), c \in 1..Len(l) : a # c => Name(l[a]) # Name(
 
 RunStep(r) ==
   LET F0 == IF r.first THEN <<>> ELSE dir
-      F1 == RunFiles(F0, r.brs, r.data, r.tpl, r.ed)
-  IN /\ Distinct(r.brs)
+      \* a filled cache (every run has at least one event) replays the first run's events, the reader is not read
+      load == r.usecache /\ ~r.first /\ stored # <<>>
+      data == IF load THEN stored ELSE r.src
+      F1 == RunFiles(F0, r.brs, data, r.tpl, r.ed)
+  IN /\ Distinct(r.brs) /\ Len(r.src) >= 1
+     /\ r.pulled = IF load THEN 0 ELSE Len(r.src)
+     /\ stored' = IF r.usecache THEN data ELSE <<>>
      /\ \A k \in 1..Len(r.brs) :
-          FillAllP(r.brs[k], EmptyP(r.brs[k], r.ed), r.data, r.ed) = HistRef(r.brs[k], r.data, r.ed)
+          FillAllP(r.brs[k], EmptyP(r.brs[k], r.ed), data, r.ed) = HistRef(r.brs[k], data, r.ed)
      /\ AsFun(r.files) = F1
      /\ AsSet(r.wrote) = RunWrote(F0, F1, r.brs)
      /\ AsSet(r.launched) = RunLaunched(F0, F1, r.brs)
      /\ Len(r.launched) = Cardinality(AsSet(r.launched))        \* no converter started twice for one target
-     /\ r.out = RunOut(r.brs, r.data, r.ed)
+     /\ r.out = RunOut(r.brs, data, r.ed)
      /\ dir' = F1
 
 Next == i <= Len(Trace) /\ RunStep(Trace[i]) /\ i' = i + 1
